@@ -36,3 +36,22 @@ func (s *StateMachine) VerifSideState() (cachedAccounts, cachedPools int, feePar
 
 // VerifSetHeight sets the height of the state machine (test scenarios at chosen heights).
 func (s *StateMachine) VerifSetHeight(h uint64) { s.height = h }
+
+// VerifSlash runs the real SlashValidator on the stored validator with the stored parameters and reports what the per-block
+// slash tracker held for (validator, chain) before the call and whether committee-scoped slashing (protocol v2) is active.
+func (s *StateMachine) VerifSlash(address []byte, chainId, percent uint64) (already uint64, scoped bool, found bool, err lib.ErrorI) {
+	scoped = s.IsFeatureEnabled(2)
+	val, e := s.GetValidator(crypto.NewAddressFromBytes(address))
+	if e != nil || val == nil {
+		return 0, scoped, false, nil
+	}
+	p, e := s.GetParamsVal()
+	if e != nil {
+		return 0, scoped, true, e
+	}
+	already = s.slashTracker.GetTotalSlashPercent(address, chainId)
+	return already, scoped, true, s.SlashValidator(val, chainId, percent, p)
+}
+
+// VerifResetSlashTracker starts a fresh per-block slash tracker (what BeginBlock does).
+func (s *StateMachine) VerifResetSlashTracker() { s.slashTracker = NewSlashTracker() }
